@@ -104,7 +104,34 @@ fn fold_expr(op: &str, args: &[Number]) -> String {
     }
 }
 
+/// literal forms other than arithmetic: `!b`, `get <lit>`, `get nil`, `(nil) or <lit>`, `(<lit>) or <lit>`
+fn fold_literal_form(form: &str, args: &[Number], flag: bool) -> String {
+    use crate::ast::Expr;
+    let leaf = |n: &Number| Box::new(Expr::Value(Value::Number(n.clone())));
+    let e = match form {
+        "not" => Expr::UnaryNot(Box::new(Expr::Value(Value::Boolean(flag)))),
+        "get" => Expr::UnaryUnwrap { value: leaf(&args[0]), span: Box::new("x".to_string()) },
+        "getnil" => Expr::UnaryUnwrap { value: Box::new(Expr::Nil), span: Box::new("x".to_string()) },
+        "ornil" => Expr::NilEval { primary: Box::new(Expr::Nil), fallback: Value::Number(args[0].clone()) },
+        "orlit" => Expr::NilEval { primary: leaf(&args[0]), fallback: Value::Number(args[1].clone()) },
+        _ => panic!("form {form}"),
+    };
+    match e.try_constexpr_eval() {
+        Ok(ConstexprEvaluation::Owned(Value::Number(n))) => load(&n),
+        Ok(ConstexprEvaluation::Owned(Value::Boolean(b))) => format!("OK Bool {:x}", b as u8),
+        Ok(ConstexprEvaluation::Owned(_)) => "OK Other 0".to_string(),
+        Ok(ConstexprEvaluation::Impossible) => "DEFER".to_string(),
+        Err(_) => "ERR".to_string(),
+    }
+}
+
 fn fold(op: &str, args: &[Number]) -> String {
+    if let Some(o) = op.strip_prefix("lf:") {
+        let mut it = o.splitn(2, ':');
+        let form = it.next().unwrap();
+        let flag = it.next() == Some("1");
+        return fold_literal_form(form, args, flag);
+    }
     if let Some(o) = op.strip_prefix("expr:") {
         return fold_expr(o, args);
     }
@@ -138,7 +165,7 @@ fn run_fold_vectors(out: &mut impl Write) {
     std::panic::set_hook(Box::new(|_| {}));
     for line in std::fs::read_to_string(path).expect("vectors").lines() {
         let t: Vec<&str> = line.split_whitespace().collect();
-        if t.len() < 4 {
+        if t.len() < 2 {
             continue;
         }
         let mut args = vec![];
